@@ -110,6 +110,8 @@ struct Agg {
   samples: Vec<(u64, Value)>,
   table: Vec<(u64, u64, u64)>,
   unsafe_hits: BTreeMap<String, u64>,
+  /// known finding -> number of runs of this worker that hit it
+  known_hits: BTreeMap<String, u64>,
 }
 
 /// One worker process: runs indices `id, id + workers, ...` single-threaded
@@ -123,7 +125,9 @@ pub fn run_worker(
   id: u64,
   want_table: bool,
   out: &str,
+  verif_dir: &str,
 ) {
+  let known = load_known(&format!("{}/known_findings.json", verif_dir));
   let mut a = Agg::default();
   let marker = format!("{}.current", out);
   let mut i = id;
@@ -146,9 +150,26 @@ pub fn run_worker(
     if want_table {
       a.table.push((i, r.log_hash, r.outcome_hash));
     }
-    if !r.violations.is_empty() {
+    for v in &r.violations {
+      *a.counters.entry(format!("violation:{}", v.kind)).or_insert(0) += 1;
+    }
+    // listed findings are only counted; everything else is kept for reporting
+    let mut unlisted = vec![];
+    let mut hit: BTreeSet<String> = BTreeSet::new();
+    for v in r.violations {
+      match matches_known(&known, p.id(), &v, &r.case) {
+        Some(k) => {
+          hit.insert(k.what.clone());
+        }
+        None => unlisted.push(v),
+      }
+    }
+    for what in hit {
+      *a.known_hits.entry(what).or_insert(0) += 1;
+    }
+    if !unlisted.is_empty() {
       if a.failing.len() < 64 {
-        a.failing.push((i, r.violations, r.case, r.log_hash));
+        a.failing.push((i, unlisted, r.case, r.log_hash));
       } else {
         *a.counters.entry("violating_runs_not_kept".into()).or_insert(0) += 1;
       }
@@ -186,7 +207,9 @@ pub fn run_property(p: &dyn Property, cfg: &RunCfg) -> i32 {
       .arg("--worker-id")
       .arg(k.to_string())
       .arg("--out")
-      .arg(&out);
+      .arg(&out)
+      .arg("--verif-dir")
+      .arg(&cfg.verif_dir);
     if want_table {
       cmd.arg("--want-table");
     }
@@ -223,7 +246,11 @@ pub fn run_property(p: &dyn Property, cfg: &RunCfg) -> i32 {
   let mut samples = vec![];
   let mut table = vec![];
   let mut unsafe_hits: BTreeMap<String, u64> = BTreeMap::new();
+  let mut known_hits: BTreeMap<String, (u64, String)> = BTreeMap::new();
   for a in aggs {
+    for (k, v) in a.known_hits {
+      known_hits.entry(k).or_insert((0, String::new())).0 += v;
+    }
     for (k, v) in a.unsafe_hits {
       *unsafe_hits.entry(k).or_insert(0) += v;
     }
@@ -264,7 +291,6 @@ pub fn run_property(p: &dyn Property, cfg: &RunCfg) -> i32 {
 
   // classify against known findings; shrink and report the rest
   let known = load_known(&format!("{}/known_findings.json", cfg.verif_dir));
-  let mut known_hits: BTreeMap<String, (u64, String)> = BTreeMap::new();
   let mut new_violations: Vec<(u64, Violation, Value, u64)> = vec![];
   for (i, vs, case, lh) in &failing {
     for v in vs {
@@ -358,6 +384,9 @@ pub fn run_property(p: &dyn Property, cfg: &RunCfg) -> i32 {
     wall
   );
 
+  for (k, v) in counters.iter().filter(|(k, _)| k.starts_with("violation:")) {
+    println!("  {} = {}", k, v);
+  }
   if cfg.write_evidence {
     let faults: BTreeMap<&String, &u64> = counters.iter().filter(|(k, _)| k.starts_with("fault:")).collect();
     let probes: BTreeMap<&String, &u64> = counters
